@@ -81,8 +81,8 @@ def build(arr, rng, stamped=True):
 
     def touch():
         tr.distances, tr.path_length, tr.get_infos(), tr.check()
-        if stamped and tr.num_poses >= 2:
-            tr.speeds, tr.get_statistics()
+        if stamped and tr.num_poses >= 2 and bool(np.all(np.diff(tr.timestamps) > 0)):
+            tr.speeds, tr.get_statistics()  # (evo refuses speeds for non-increasing stamps)
         if rng.random() < .5 and tr.num_poses >= 2:
             tr.split_distance_gaps(float(rng.random() * 3))
             if stamped:
@@ -289,6 +289,12 @@ def k_crop(run, case):
     rng = run.rng(case)
     n = int(rng.integers(1, {"quick": 150, "thorough": 5000}[run.tier]))
     arr = make_traj(rng, n, exact=bool(rng.random() < .3))
+    unsorted = bool(rng.random() < .15) and n >= 3
+    if unsorted:
+        # appended recordings / late messages: the statement's crop clause does not depend on the order
+        perm = rng.permutation(n)
+        arr["t"] = arr["t"][perm]
+        arr["exact"] = False
     tr, exp, mode = build(arr, rng, True)
     n = len(arr["p"])
     t = arr["t"]
@@ -301,7 +307,7 @@ def k_crop(run, case):
             return float(t[rng.integers(n)])  # exactly on a stamp
         if u < .7:
             return float(np.nextafter(t[rng.integers(n)], np.inf if rng.random() < .5 else -np.inf))
-        lo, hi = float(t[0]), float(t[-1])
+        lo, hi = float(np.min(t)), float(np.max(t))
         return float(rng.uniform(lo - 0.3 * (hi - lo) - 1, hi + 0.3 * (hi - lo) + 1))
 
     start, end = pick(), pick()
@@ -311,6 +317,8 @@ def k_crop(run, case):
     s_eff = float(t[0]) if start is None else start
     e_eff = float(t[-1]) if end is None else end
     want = [i for i in range(n) if s_eff <= float(t[i]) <= e_eff]
+    if unsorted:
+        run.hit("crop: trajectories with non-chronological stamps")
     run.seen(case, core.digest(t, "crop", start, end), nontrivial=len(want) < n,
              cls=["crop", "one-sided" if (start is None) != (end is None) else
                   "open" if start is None else "two-sided",
